@@ -45,7 +45,7 @@ ASSUMPTIONS = [
     "ranges are generated with lo <= hi (the documented form) and only over integers/bools; strings are never mixed into sets that hold ranges (comparison of str with int is undefined in Python)",
     "tables never contain an empty-dict (catch-all) column, as the property says; columns may omit some keys (ragged CSV rows produce such columns)",
     "'is an allowed combination' is read as documented in constraint_table.py: some column defines every given key and contains every given value; the real is_allowed_combination is compared with that reading and, separately, with allowed_values_for (the relation the property states)",
-    "the incremental check is run through the real assert_level_constraint with LEVEL_CONSTRAINTS swapped; sequences use distinct keys, optionally re-asserting an identical value; re-asserting a different value is outside the stated equivalence and not generated",
+    "the incremental check is run through the real assert_level_constraint with LEVEL_CONSTRAINTS swapped; sequences use distinct keys, optionally re-asserting an identical value; re-asserting a different value is outside the stated prefix equivalence; it is judged separately (stratum b3) against the documented update semantics of assert_level_constraint (value must be in allowed_values_for(table, key, recorded values), then replaces the recorded value)",
     "a rejected value ends the sequence (the validator aborts at the first ValueNotAllowedInLevel)",
     "CSV: keys are unique non-empty identifiers not starting with '#'; bool cells hold only TRUE/FALSE (so the documented conversion to bool can be observed without the True==1 ambiguity); comment rows consist only of empty and '#'-prefixed cells; a short row leaves the key undefined in the columns it does not reach; ditto with nothing to its left denotes no values",
     "iter_values() is compared as a set (the statement is about content, not multiplicity)",
@@ -515,8 +515,69 @@ def table_case(rng, ctx, label):
     for _ in range(3):
         seq, strat = _gen_sequence(rng, keys, tspec, mtable)
         incremental(ctx, table, mtable, tspec, seq, strat, label)
+    # ---- b3: a key asserted again with a DIFFERENT value (as the validator does for per-picture parameters) ------
+    for _ in range(2):
+        seq, strat = _gen_sequence(rng, keys, tspec, mtable)
+        seq = [p for p in seq if p[0] != "unknown_key"]
+        if not seq:
+            continue
+        i = rng.randrange(len(seq))
+        k, v = seq[i]
+        others = sorted(set(x for col in mtable if k in col and not R.is_any(col[k]) for x in col[k]) - {v},
+                        key=lambda x: (int(x), isinstance(x, bool)))
+        v2 = rng.choice(others) if others and rng.random() < 0.8 else rng.choice(TABLE_VALUES)
+        j = rng.randrange(i + 1, len(seq) + 1)
+        seq.insert(j, [k, v2])
+        reassert_different(ctx, table, mtable, tspec, seq, label)
     if ctx.rng.random() < 0.002:
         ctx.sample({"stratum": "b", "table": tspec})
+
+
+def reassert_different(ctx, table, mtable, tspec, seq, label):
+    """Documented behaviour of assert_level_constraint: the value must be among allowed_values_for(table, key, values
+    recorded so far) and is then recorded (replacing an earlier value of the same key)."""
+    from vc2_conformance.decoder import assertions
+    from vc2_conformance.decoder.exceptions import ValueNotAllowedInLevel
+    from vc2_conformance.pseudocode.state import State
+
+    recorded = {}
+    want_reject = None
+    for i, (k, v) in enumerate(seq):
+        s = R.allowed_for(mtable, k, recorded)
+        if not (R.is_any(s) or v in s):
+            want_reject = i
+            break
+        recorded[k] = v
+    state = State()
+    got_reject = None
+    saved = assertions.LEVEL_CONSTRAINTS
+    assertions.LEVEL_CONSTRAINTS = table
+    try:
+        for i, (k, v) in enumerate(seq):
+            try:
+                assertions.assert_level_constraint(state, k, v)
+            except ValueNotAllowedInLevel:
+                got_reject = i
+                break
+            except Exception as e:
+                ctx.violation("table:exception:assert_level_constraint:" + type(e).__name__, "assert_level_constraint raised %r" % (e,),
+                              detail={"table": tspec, "sequence": seq, "at": i, "case": label})
+                return
+    finally:
+        assertions.LEVEL_CONSTRAINTS = saved
+    ctx.count("b3:sequences")
+    ctx.count("b3:sequences_accepted" if want_reject is None else "b3:sequences_rejected")
+    if got_reject != want_reject:
+        kind = "accepts-disallowed" if (got_reject is None or (want_reject is not None and got_reject > want_reject)) else "rejects-allowed"
+        ctx.violation("table:incremental-reassert-different:" + kind,
+                      "with a key asserted again with a different value the one-at-a-time check rejects at %r, documented update semantics at %r"
+                      % (got_reject, want_reject), detail={"table": tspec, "sequence": seq, "case": label})
+    elif got_reject is None:
+        got = dict(state.get("_level_constrained_values", {}))
+        if got != recorded:
+            ctx.violation("table:incremental-reassert-different:recorded-values", "recorded values %r, expected %r" % (got, recorded),
+                          detail={"table": tspec, "sequence": seq, "case": label})
+    ctx.seen(jsonx.key_hash(["b3", tspec, seq]), nontrivial=True)
 
 
 def _gen_sequence(rng, keys, tspec, mtable):
@@ -726,6 +787,8 @@ def floor(agg, tier):
     need("b2:real_asserts_passed", 5000)
     need("b2:real_asserts_raised", 1500)
     need("b2:reassert_accepted", 300)
+    need("b3:sequences_accepted", 300)
+    need("b3:sequences_rejected", 300)
     need("c:texts", 10000)
     need("c:cells_checked", 50000)
     need("c:rows_comment", 2000)
